@@ -24,6 +24,17 @@ for d in sorted(glob.glob(root+'/seeded/*/')):
         m=re.search(r'first: "([^"]*)"',killed[0]); first=m.group(1) if m else ''
     rows.append((sid,prop,'caught' if killed else 'MISSED',first[:110],meta.get('summary','')[:110]))
     print(rows[-1],flush=True)
+# the table is always written from the detection recorded in every meta.json
+rows=[]
+for d in sorted(glob.glob(root+'/seeded/*/')):
+    sid=os.path.basename(d.rstrip('/'))
+    meta=json.load(open(d+'meta.json'))
+    det=meta.get('detection')
+    if not det: continue
+    first=''
+    m=re.search(r'first: "([^"]*)"',det.get('detail',''))
+    if m: first=m.group(1)
+    rows.append((sid,meta['property'],'caught' if det['result']=='caught' else 'MISSED',first[:110].replace('|','\\|'),meta.get('summary','')[:110].replace('|','\\|')))
 with open(root+'/seeded/DETECTION.md','w') as f:
     f.write('| seed | property | result | first failing obligation | change |\n|---|---|---|---|---|\n')
     for r in rows: f.write('| %s | %s | %s | `%s` | %s |\n'%r)
